@@ -690,6 +690,34 @@ func (vc *VC) callByContract(fr *frame, st *State, ct *Contract, fn *ssa.Functio
 	locs := vc.evalModifies(pre, ct)
 	what := "call$" + shortLabel(short) + fmt.Sprint(n)
 	vc.havocLocs(st, locs, what)
+	// a callee that receives a closure and may write anything may run it: the variables the closure captured
+	// (cells of this frame) are arbitrary afterwards
+	modsAll := false
+	for _, l := range locs {
+		if l.all {
+			modsAll = true
+		}
+	}
+	if modsAll {
+		for _, a := range args {
+			if a.Fn == nil {
+				continue
+			}
+			assigned := closureAssigns(a.Fn.Fn)
+			for bi, b := range a.Fn.Bindings {
+				if !assigned[bi] {
+					continue // the closure never assigns this captured variable
+				}
+				if b.K == VAddr && b.A != nil && b.A.K == ACell && b.A.Cell != nil && len(b.A.Path) == 0 {
+					t := b.A.Cell.Type().Underlying().(*types.Pointer).Elem()
+					if _, isStruct := structOf(t); isStruct {
+						continue
+					}
+					st.cells[cellKey{b.A.Cell, b.A.CellID}] = vc.freshVal(st, t, b.A.Cell.Comment+"@"+what)
+				}
+			}
+		}
+	}
 	if len(ct.Preserves) > 0 {
 		// whole maps named by the preserves clause keep their pre-call value (fields of fresh objects aside:
 		// a preserved map may gain entries for objects the callee allocated, which no old reference reaches)
@@ -1218,4 +1246,57 @@ func (vc *VC) callAlternatives(fr *frame, st *State, alts []FuncAlt, args []Val,
 // copyStructAt copies the struct of type t living at src to dst (field by field, nested structs included).
 func (vc *VC) copyStructAt(st *State, src, dst *Term, t types.Type) {
 	vc.storeStruct(st, dst, t, vc.loadStruct(st, src, t))
+}
+
+// closureAssigns reports, per free variable of a closure, whether its body (or a closure nested in it) stores to it.
+func closureAssigns(fn *ssa.Function) map[int]bool {
+	out := map[int]bool{}
+	if fn == nil {
+		return out
+	}
+	idx := map[*ssa.FreeVar]int{}
+	for i, fv := range fn.FreeVars {
+		idx[fv] = i
+	}
+	var scan func(f *ssa.Function, m map[*ssa.FreeVar]int)
+	scan = func(f *ssa.Function, m map[*ssa.FreeVar]int) {
+		for _, b := range f.Blocks {
+			for _, ins := range b.Instrs {
+				switch x := ins.(type) {
+				case *ssa.Store:
+					if fv, ok := x.Addr.(*ssa.FreeVar); ok {
+						if i, ok := m[fv]; ok {
+							out[i] = true
+						}
+					}
+				case *ssa.MakeClosure:
+					// a nested closure capturing our free variable may assign it
+					if nf, ok := x.Fn.(*ssa.Function); ok {
+						nm := map[*ssa.FreeVar]int{}
+						for k, bv := range x.Bindings {
+							if fv, ok := bv.(*ssa.FreeVar); ok {
+								if i, ok := m[fv]; ok && k < len(nf.FreeVars) {
+									nm[nf.FreeVars[k]] = i
+								}
+							}
+						}
+						if len(nm) > 0 {
+							scan(nf, nm)
+						}
+					}
+				case *ssa.Call:
+					// the address of a captured variable passed to a call: assume it may be written
+					for _, a := range x.Call.Args {
+						if fv, ok := a.(*ssa.FreeVar); ok {
+							if i, ok := m[fv]; ok {
+								out[i] = true
+							}
+						}
+					}
+				}
+			}
+		}
+	}
+	scan(fn, idx)
+	return out
 }
